@@ -11,6 +11,8 @@ import (
 	"fmt"
 	"io"
 	"net"
+	"os"
+	"path/filepath"
 	"strconv"
 	"sync"
 	"sync/atomic"
@@ -522,7 +524,32 @@ func WaitClosed(c net.Conn, br *bufio.Reader, d time.Duration) (closed bool, ext
 }
 
 // FreePort returns a loopback port that is currently not listening (closed right away).
+// FreeAddr returns ip:port with a port nobody listens on and nobody else will be given for the next half minute:
+// ports come from 20000-29999 (the driver asks the kernel never to auto-assign those), each claimed through a lock file
+// that every harness process honours - several checks, or shards of one, run at the same time and each starts
+// proxies on addresses it has to know beforehand.
 func FreeAddr(ip string) string {
+	dir := filepath.Join(os.TempDir(), "verif-portlocks")
+	os.MkdirAll(dir, 0o777)
+	for try := 0; try < 400; try++ {
+		n := portSeq.Add(1)
+		port := 20000 + int((uint64(os.Getpid())*7919+uint64(n)*104729+uint64(try)*31)%10000)
+		lock := filepath.Join(dir, strconv.Itoa(port))
+		f, err := os.OpenFile(lock, os.O_CREATE|os.O_EXCL|os.O_WRONLY, 0o666)
+		if err != nil {
+			if fi, serr := os.Stat(lock); serr == nil && time.Since(fi.ModTime()) > 30*time.Second {
+				os.Remove(lock) // a claim nobody can still be relying on
+			}
+			continue
+		}
+		f.Close()
+		l, err := net.Listen("tcp", net.JoinHostPort(ip, strconv.Itoa(port)))
+		if err != nil {
+			continue // in use by somebody outside the harness; the claim stays so that nobody retries it soon
+		}
+		l.Close()
+		return net.JoinHostPort(ip, strconv.Itoa(port))
+	}
 	l, err := net.Listen("tcp", net.JoinHostPort(ip, "0"))
 	if err != nil {
 		return net.JoinHostPort(ip, "1")
@@ -531,6 +558,8 @@ func FreeAddr(ip string) string {
 	l.Close()
 	return a
 }
+
+var portSeq atomic.Int64
 
 // TrimRequests keeps only the newest n recorded requests (long-lived peers).
 func (p *Peer) TrimRequests(n int) {
